@@ -311,7 +311,7 @@ func (w *World) execInto(supis []string, h *HistRun, ops []Op, snapFrom int, wit
 			self := chf_context.GetSelf()
 			self.Lock()
 			f := reflect.ValueOf(self).Elem().FieldByName("LocalRecordSequenceNumber")
-			f.SetUint(f.Uint() + 1<<32)
+			f.SetUint(f.Uint() + 1<<32 - 1) // (one record was opened since the session that is still live: 2^32 - 1 more)
 			self.Unlock()
 			st.Resp.Code = 204
 			se = nil
